@@ -27,6 +27,7 @@ CASES = [  # (defect id, property, commit, demo, rules expected)
     ("D22", "C08", "624dedc", "d22_calendar_from_text.py", ["R08.11"]),
     ("D23", "C16", "ed93a17", "d23_badi_week_year_zero.py", ["R16.9"]),
     ("D24", "C13", "4f8912b", "d24_day_names_publication.py", ["R13.14"]),
+    ("D25", "C13", "b0e3e5c", "d25_composite_pattern_aliasing.py", ["R13.15"]),
 ]
 demos = os.path.join(HERE, "demos")
 for did, prop, commit, demo, rules in CASES:
